@@ -13,7 +13,7 @@ PROPERTY = 'C16'
 LEVEL = 'exploration'
 RULE = ('random CLOSED sampler configurations (1-5 fragments, 1-4 descriptors each, $ with/without labels and >/< with labels, '
         'orders 1-2, optional terminal fragment, reactivity tables none / uniform / with zeros, conditional tables, coarse and '
-        'all-atom, given or computed masses, targets of 1-40 average fragment masses, seeds). Every sample() runs under an '
+        'all-atom, given or computed masses, targets of 1-40 average fragment masses, seeds; for a third of them two further molecules from the same sampler object). Every sample() runs under an '
         'add_fragment hook that logs each growth step. Oracle on the returned graph: keys 0..n-1, fragment ids 0..m-1 in '
         'contiguous ascending blocks, every block a copy of the template named by its fragname (heavy atoms / node names, '
         'internal orders), connected, exactly m-1 inter-block bonds and exactly one from each added block to the earlier '
@@ -193,6 +193,23 @@ def run(cfg):
                 viol.append(V('c16.log_step_shape', f'{txt}: step {i} added {ev["n_new_nodes"]} nodes / {ev["n_new_edges"]} edges / '
                               f'{len(ev["cross"])} bonds to the molecule for fragment {ev["fragname"]} ({len(t)} nodes, {t.number_of_edges()} edges)'))
                 break
+    # further molecules drawn from the SAME sampler object: each of them is judged like the first
+    if cfg['seed'] % 3 == 0 and not viol:
+        for k in range(2):
+            SC.LOG.clear()
+            SC.FAIL.clear()
+            try:
+                later = sampler.sample(target, start_fragment=cfg['start_fragment'])
+            except Exception:
+                rejected['dead_end_on_a_later_draw'] = 1
+                break
+            chk = check_graph(cfg, sampler, later)
+            res2 = chk[0] if isinstance(chk, tuple) else chk
+            counters['later_draws_from_one_sampler'] += 1
+            for clause, msg in res2:
+                viol.append(V(clause, f'[molecule {k + 2} drawn from one sampler object] {msg}'))
+            if viol:
+                break
     blocks_bucket = 1 if m <= 1 else 2 if m <= 3 else 10 if m <= 10 else 40
-    return {'violations': viol, 'counters': dict(counters), 'nontrivial': m >= 2, 'sample': txt,
+    return {'violations': viol, 'counters': dict(counters), 'rejected': rejected, 'nontrivial': m >= 2, 'sample': txt,
             'cls': (tuple(cfg['features']), blocks_bucket)}
